@@ -66,10 +66,19 @@ def main(run):
         slots = collections.Counter()
         nmax, snapset = max(snaps), set(snaps)
         fails = []
+        interference = j % 3 == 2
+        irnd = random.Random(run.shard_seed + j)
+        if interference:
+            from .c08 import interfere
+            runs = runs // 3
+            run.count("configs-with-interleaved-library-objects")
         for _ in range(runs):
             st = GeometricReservoirStorage(size=k, constant_probability=p, store_targets=False)
             prev = None
+            at = irnd.randrange(nmax) if interference and irnd.random() < 0.5 else -1
             for i in range(nmax):
+                if i == at:
+                    interfere()
                 x = {"t": i}
                 st.update(x)
                 cur = [d["t"] for d in st.get_data()[0]]
